@@ -24,6 +24,8 @@ def plan(tier, seed):
     for i, fw in enumerate(("twisted", "asyncio")):
         for sh in range(3 if tier == "quick" else 8):
             jobs.append({"func": "machine", "fw": fw, "name": "machine/%s/%d" % (fw, sh), "args": {"seed": seed * 1000 + i * 100 + sh, "n": n}})
+    for fw in ("twisted", "asyncio"):
+        jobs.append({"func": "crosstype", "fw": fw, "name": "crosstype/" + fw, "args": {}})
     jobs.append({"func": "idgen", "name": "idgen", "args": {"seed": seed * 1000 + 900, "n": 500 if tier == "quick" else 5000}})
     return jobs
 
@@ -543,6 +545,39 @@ def make_machine_factory(col):
 
 def machine(col, seed, n):
     run_machine(col, "machine", make_machine_factory(col), n, seed, step_count=40)
+
+
+def crosstype(col):
+    """exhaustive: every request kind pending alone x every other reply type x {success form, ERROR form} x serializer;
+    the wrong-type reply bearing the pending id must be a protocol violation, and the genuine reply must still complete the request"""
+    U = "com.example.a"
+    E = "wamp.error.not_authorized"
+    popts = {"acknowledge": True, "exclude_me": None, "exclude": None, "eligible_authid": None, "exclude_authrole": None, "retain": None}
+    ok = ("reply", 0, "success", [], {}, E)
+    setup = {
+        "call": [("call", U, [1], {}, {"on_progress": False, "details": False, "timeout": None})],
+        "publish": [("publish", U, [1], {}, popts)],
+        "subscribe": [("subscribe", U, None, False)],
+        "register": [("register", U, None, None)],
+        "unsubscribe": [("subscribe", U, None, False), ok, ("unsubscribe", 0)],
+        "unregister": [("register", U, None, None), ok, ("unregister", 0)],
+    }
+    for ser in ("json", "cbor", "msgpack"):
+        for kind in sorted(setup):
+            for idx in range(10):
+                i = Interp(col, ser)
+                try:
+                    for st_ in setup[kind] + [("reply", idx, "wrongtype", [7], {}, E), ("reply", 0, "success", [1], {}, E)]:
+                        i.apply(st_)
+                    pend = [r for r in i.reqs if r["kind"] == kind]
+                    if not pend or pend[-1]["track"].n != 1:
+                        i.fail("request-not-completed-by-its-reply|%s|after-wrongtype" % kind, "completion count %r" % (pend[-1]["track"].n if pend else None,))
+                finally:
+                    i.teardown()
+                other = [k for k in Interp.REQ_TYPE if k != kind][idx % 5]
+                col.case(True, enum=True, cls=["crosstype/%s-pending/%s-%s" % (kind, other, "success-form" if idx % 2 == 0 else "error-form")],
+                         sample={"ser": ser, "pending": kind, "reply_type": other, "form": "success" if idx % 2 == 0 else "error"})
+    col.exhaustive.append("C04 crosstype: 6 pending kinds x 5 other reply types x 2 forms x 3 serializers")
 
 
 def idgen(col, seed, n):
